@@ -516,6 +516,23 @@ func checkC03(src string, watch []string, rep *racReport) *racVio {
 				Expected: "never re-prepared: " + oc.String(), Got: "unoptimised: " + ob.String() + "\noptimised:   " + oa.String()}
 		}
 	}
+	// NoOptimize is honoured whatever the evaluator was prepared with before (C20: the flag disables the
+	// optimizer and nothing else): the optimised evaluator, prepared again with NoOptimize, holds the program
+	// of the one that was never optimised; and the other way round
+	if a.e.Prepare([]byte{NoOptimize}) == nil && b.e.Prepare([]byte{NoOptimize}) == nil {
+		_, ba, _ := a.e.machine.VerifProgram()
+		_, bb, _ := b.e.machine.VerifProgram()
+		if string(ba) != string(bb) {
+			return &racVio{Kind: "nooptimize-not-honoured-after-an-optimised-prepare", Script: src, Expected: fmt.Sprintf("the unoptimised program (%d bytes)", len(bb)), Got: fmt.Sprintf("a program of %d bytes", len(ba))}
+		}
+		if x, errX := newRacEval(src, true); errX == nil && a.e.Prepare() == nil {
+			_, bx, _ := x.e.machine.VerifProgram()
+			_, ba, _ = a.e.machine.VerifProgram()
+			if string(ba) != string(bx) {
+				return &racVio{Kind: "optimiser-not-back-after-a-nooptimize-prepare", Script: src, Expected: fmt.Sprintf("the optimised program (%d bytes)", len(bx)), Got: fmt.Sprintf("a program of %d bytes", len(ba))}
+			}
+		}
+	}
 	return nil
 }
 
@@ -862,7 +879,12 @@ func TestRAC_C08(t *testing.T) {
 		// overflowing stack is fatal, the harness then ends with "did not complete")
 		"return 1" + strings.Repeat("+a", 40000) + ";", "return 1" + strings.Repeat(" || a == 1", 1000000) + ";", "return L" + strings.Repeat("[0]", 500000) + ";",
 		"return id" + strings.Repeat("(1)", 500000) + ";", "return a" + strings.Repeat(".len()", 300000) + ";", "return " + strings.Repeat("!", 500000) + "1;",
-		"return " + strings.Repeat("[", 300000) + "1" + strings.Repeat("]", 300000) + ";", strings.Repeat("a = ", 300000) + "1;", "if (a) { return 1; }" + strings.Repeat(" else if (a) { return 1; }", 100000)}
+		"return " + strings.Repeat("[", 300000) + "1" + strings.Repeat("]", 300000) + ";", strings.Repeat("a = ", 300000) + "1;", "if (a) { return 1; }" + strings.Repeat(" else if (a) { return 1; }", 100000),
+		// ... and chains inside the operands of chains: the tree is as deep as all of them together
+		"return " + strings.Repeat("(", 40) + "1" + strings.Repeat(strings.Repeat("+1", 32000)+")", 40) + strings.Repeat("+1", 32000) + ";",
+		"return " + strings.Repeat("if ( a ) { ", 40) + "1" + strings.Repeat(strings.Repeat("+1", 32000)+"; }", 40) + strings.Repeat("+1", 32000) + ";",
+		"return " + strings.Repeat("[", 40) + "1" + strings.Repeat(strings.Repeat("+1", 32000)+"]", 40) + strings.Repeat("[0]", 32000) + ";",
+		"return id(" + strings.Repeat("id(1"+strings.Repeat("+1", 30000)+", ", 30) + "1" + strings.Repeat(")", 30) + strings.Repeat("+1", 30000) + ");"}
 	for i := -len(settings); i < n; i++ {
 		var src string
 		switch {
@@ -978,6 +1000,20 @@ var fragmentContexts = []string{
 	"v = L[%s];", "v = 1 ? %s : 2;", "v = 1 ? 2 : %s;", "v = (%s);", "v = !(%s);", "v = 1 + (%s);", "return id([%s])[0];",
 }
 
+// whole statements that are structurally invalid, and the places a statement can stand in
+var invalidStatements = []string{
+	"foreach x in [1,2] ; id(x); }", "foreach x in [1,2] @ id(x); }", "foreach x in [1,2] id(x);", "foreach x [1,2] { }", "foreach in [1,2] { }", "foreach x, in [1] { }",
+	"function @(a) { return 1; }", "function 3(a) { return 1; }", "function (a) { return 1; }", "function f(a b) { return a; }", "function f(a,) { return a; }", "function f(,a) { return a; }", "function f(a { return a; }", "function f a) { return a; }",
+	"3++;", "\"s\"++;", "++;", "(v)++;", "v = 1 + ++;", "v--  --;", "[1]++;",
+	"v = 1;\x00 (((", "v = \"a\x00b\";",
+	"v = a.(3 += 1);", "v = a.(1 = 2);", "v = a.[1];", "v = a.;",
+	"if ( 1 ) ; { }", "while ( 0 ) v = 1;", "if 1 { }", "switch 1 { }", "if ( 1 ) { } else ; { }", "switch ( 1 ) { case 1 ; { } }", "switch ( 1 ) { 1 { } }", "switch ( 1 ) { default { } default { } }",
+	"local;", "return", "v = ;", "= 3;", "else { }", "case 1 { }", "v = [1 2];", "v = {\"a\" 1};", "v = {\"a\": 1 \"b\": 2};", "v = id(1 2);",
+}
+
+var statementContexts = []string{"%s", "if ( 1 ) { %s }", "if ( 0 ) { } else { %s }", "function g() { %s }", "while ( 0 ) { %s }", "foreach y in [1] { %s }", "switch ( 1 ) { default { %s } }",
+	"switch ( 1 ) { case 1 { %s } }", "return 1; %s", "v = 1; %s return v;", "function g() { function h() { %s } }"}
+
 func TestRAC_C13(t *testing.T) {
 	seed := envInt("VERIF_SEED", 0)
 	rep := &racReport{Property: "C13", Seed: seed, MaxDepth: 2}
@@ -992,6 +1028,11 @@ func TestRAC_C13(t *testing.T) {
 	var cases []string
 	for _, f := range invalidFragments {
 		for _, c := range fragmentContexts {
+			cases = append(cases, strings.Replace(c, "%s", f, 1))
+		}
+	}
+	for _, f := range invalidStatements {
+		for _, c := range statementContexts {
 			cases = append(cases, strings.Replace(c, "%s", f, 1))
 		}
 	}
